@@ -26,6 +26,7 @@ type reqSpec struct {
 	bodyLen             int
 	chunked             bool
 	remote              string // client address as net/http reports it ("" = the kit's default IPv4 peer)
+	host                string // Host header ("" = client.test)
 }
 
 type blockSpec struct {
@@ -210,7 +211,11 @@ func run(rep *kit.Report, rq reqSpec, bl blockSpec, rp replySpec, retry bool) {
 	if rq.query != "" {
 		target += "?" + rq.query
 	}
-	fmt.Fprintf(&raw, "%s %s HTTP/1.1\r\nHost: client.test\r\n", rq.method, target)
+	hostHdr := rq.host
+	if hostHdr == "" {
+		hostHdr = "client.test"
+	}
+	fmt.Fprintf(&raw, "%s %s HTTP/1.1\r\nHost: %s\r\n", rq.method, target, hostHdr)
 	for _, h := range rq.hdrs {
 		raw.WriteString(h + "\r\n")
 	}
@@ -344,9 +349,14 @@ func run(rep *kit.Report, rq reqSpec, bl blockSpec, rp replySpec, retry bool) {
 		if bl.transparent {
 			exp.Set("X-Real-Ip", clientIP)
 			exp.Set("X-Forwarded-Proto", "http")
-			exp.Set("Host", "client.test")
-			wantHost = "client.test"
-			exp["X-Forwarded-Port"] = g.header["X-Forwarded-Port"] // server port placeholder: environment-specific
+			exp.Set("Host", hostHdr)
+			wantHost = hostHdr
+			// the port the client addressed: the one in its Host header, else the default of the scheme (plain HTTP here)
+			port := "80"
+			if _, p, err := net.SplitHostPort(hostHdr); err == nil {
+				port = p
+			}
+			exp.Set("X-Forwarded-Port", port)
 		}
 		applyRules(exp, bl.up)
 		skip := map[string]bool{"Content-Length": true, "Transfer-Encoding": true}
@@ -486,7 +496,7 @@ func applyRules(h http.Header, rules string) {
 
 func main() {
 	rep := kit.NewReport("C04", "exploration",
-		"every pair of dimensions fully crossed (others at their default) over: method x5, path spelling x5, query x3, 12 header multisets, body length x6, framing x2, base path x3, target query x2, without x2, transparent x2, header_upstream rule x5, header_downstream rule x5, reply status x4, reply headers x4, reply body x3, trailers x5 (none, one or three announced, unannounced, both); plus the retry scenario (first backend fails after reading half the body) over base path x body x framing x header rules; upstream request observed by a recording transport and client response by the strict writer, compared field by field; distinct_nontrivial = outcome classes")
+		"every pair of dimensions fully crossed (others at their default) over: method x5, path spelling x5, query x3, 12 header multisets, body length x6, framing x2, base path x3, target query x2, without x2, transparent x2, header_upstream rule x7, header_downstream rule x9, reply status x4, reply headers x4, reply body x3, trailers x5 (none, one or three announced, unannounced, both); plus the retry scenario (first backend fails after reading half the body) over base path x body x framing x header rules; upstream request observed by a recording transport and client response by the strict writer, compared field by field; distinct_nontrivial = outcome classes")
 	kit.Init()
 	kit.Log.Off.Store(true)
 	methods := []string{"GET", "POST", "PUT", "DELETE", "PATCH"}
@@ -519,10 +529,11 @@ func main() {
 	tqueries := []string{"", "t=1"}
 	withouts := []string{"", "/api"}
 	transp := []bool{false, true}
-	ups := []string{"", "X-Up set", "+X-A added", "-X-A", "X-A 1 one", "+X-A added\n+X-A again"}
+	// (the last one: a replacement whose result still matches its own pattern, so applying it twice shows)
+	ups := []string{"", "X-Up set", "+X-A added", "-X-A", "X-A 1 one", "+X-A added\n+X-A again", "X-A 1 11"}
 	// (the last two: a rule for a hop-by-hop field, and one for a field the backend names in its Connection header:
 	// the configured value is the proxy's own and reaches the client)
-	downs := []string{"", "X-Down set", "+X-B added", "-X-B", "X-B 1 one", "+X-B added\n+X-B again", "Alt-Svc h2", "+X-BHop edge"}
+	downs := []string{"", "X-Down set", "+X-B added", "-X-B", "X-B 1 one", "+X-B added\n+X-B again", "Alt-Svc h2", "+X-BHop edge", "X-B 1 11"}
 	statuses := []int{200, 204, 404, 500}
 	rhdrs := [][][2]string{
 		{{"X-B", "1"}},
@@ -537,7 +548,8 @@ func main() {
 	def := make([]int, len(dims))
 	def[0] = 1 // POST
 	build := func(ix []int) (reqSpec, blockSpec, replySpec) {
-		rq := reqSpec{methods[ix[0]], paths[ix[1]], queries[ix[2]], hdrSets[ix[3]], bodyLens[ix[4]], framings[ix[5]], remotes[ix[16]]}
+		// (the Host header varies with the client address: a name, an IPv6 literal without a port, a name and an IPv6 literal with one)
+		rq := reqSpec{methods[ix[0]], paths[ix[1]], queries[ix[2]], hdrSets[ix[3]], bodyLens[ix[4]], framings[ix[5]], remotes[ix[16]], []string{"", "[2001:db8::1]", "client.test:8080", "[::1]:8443"}[ix[16]]}
 		bl := blockSpec{bases[ix[6]], tqueries[ix[7]], withouts[ix[8]], transp[ix[9]], ups[ix[10]], downs[ix[11]], 1}
 		rp := replySpec{statuses[ix[12]], rhdrs[ix[13]], rbodies[ix[14]], trailers[ix[15]]}
 		if rq.method == "GET" || rq.method == "DELETE" {
@@ -620,7 +632,7 @@ func main() {
 				for _, up := range ups {
 					for _, wo := range withouts {
 						for _, tq := range tqueries {
-							rq := reqSpec{"POST", "/api/x", "q=1", []string{"X-A: 1", "Connection: X-Hop", "X-Hop: v"}, bodyLen, ch, ""}
+							rq := reqSpec{"POST", "/api/x", "q=1", []string{"X-A: 1", "Connection: X-Hop", "X-Hop: v"}, bodyLen, ch, "", ""}
 							bl := blockSpec{base, tq, wo, false, up, "", 2}
 							run(rep, rq, bl, replySpec{200, [][2]string{{"X-B", "1"}}, 5, ""}, true)
 						}
